@@ -259,6 +259,10 @@ type LValue struct {
 	name   string // component (global)
 	slice  string // elem: the slice value (idx is relative to it); "" for arrays (idx absolute)
 	parent *LValue
+	// structref made from a struct-valued FIELD of another struct: that outer struct, field and object (ownership checks)
+	ost    types.Type
+	ofield int
+	obase  string
 }
 
 type fieldMeta struct {
